@@ -2,7 +2,7 @@
 From Coq Require Import ZArith.
 From Coq Require Extraction.
 From Coq Require Import ExtrOcamlBasic.
-From C06 Require Import Model ModelNative.
+From C06 Require Import Model ModelNative ModelCount.
 Extraction Language OCaml.
 Cd "ocaml".
 Extraction "model.ml" addZ add_wcZ add_wZ add_1Z subZ sub_wcZ sub_wZ sub_1Z cmpZ
@@ -14,5 +14,6 @@ Extraction "model.ml" addZ add_wcZ add_wZ add_1Z subZ sub_wcZ sub_wZ sub_1Z cmpZ
   sshrZ sdiv_qZ sdiv_rZ slmulZ slsquareZ scmpZ sextZ smod_nZ sinv_modZ
   cmp_siZ cmp_wZ ctor_uZ ctor_sZ castZ op_add_siZ op_sub_siZ op_rsub_siZ op_mul_siZ op_div_siZ div_q_uZ op_mod_wZ
   op_lor_siZ op_lxor_siZ op_land_siZ mpz_to_ruint_intoZ mpz_to_rint_intoZ ruint_to_mpz_intoZ rint_to_mpz_intoZ
-  scmp_wZ scmp_siZ sdiv_q_siZ smod_n1Z sizesZ exp_mod_nZ display_decZ maxconstZ.
+  scmp_wZ scmp_siZ sdiv_q_siZ smod_n1Z sizesZ exp_mod_nZ display_decZ maxconstZ
+  shl_cntZ shr_cntZ addmul_wZ.
 Cd "..".
